@@ -115,7 +115,10 @@ theorem iteration_repaired (v : Variant) (hv1 : v.keepErr = true) (hv2 : v.nilRe
          else
            (ev0 ++ c.1 ++ (p.hooks.reverse.map fun h => Event.hook h.1 (obsOf o (ra + 1)))
               ++ [.interval p.interval (ra + 1) o.view],
-            .inr (p.hooks.reverse.foldl (fun s h => h.2 (obsOf o (ra + 1)) s) m.1, some (respOf o ra)))) := by
+            if o.ctxDone then
+              .inl (.done (some { respOf o ra with err := some (ra, .waitCtx) }) (some (ra, .waitCtx)))
+            else
+              .inr (p.hooks.reverse.foldl (fun s h => h.2 (obsOf o (ra + 1)) s) m.1, some (respOf o ra)))) := by
   have hmm : ∀ e : Option ErrKind, Option.map (fun x : Err => x.2) (Option.map (fun k => (ra, k)) e) = e := by
     intro e; cases e <;> rfl
   unfold iteration
@@ -136,7 +139,7 @@ theorem iteration_repaired (v : Variant) (hv1 : v.keepErr = true) (hv2 : v.nilRe
     · simp only [hc]
       rw [need_eq (W := W)]
       simp only [obsOf, Option.isSome_map]
-      by_cases hce : p.conds.isEmpty = true <;> simp [hce]
+      by_cases hce : p.conds.isEmpty = true <;> by_cases hd : o.ctxDone = true <;> simp [hce, hd]
 
 /-! ### projections of event lists -/
 
@@ -214,7 +217,7 @@ theorem hooks_calls (l : List (Nat × (Obs → σ → σ))) (ob : Obs) :
 /-! ### `wants` against the loop's own tests -/
 
 theorem wants_eq (p : Policy σ) (o : Outcome) (ra : Nat) :
-    wants p o ra = (o != .beforeErr && !aborted p o ra && !cannotRetry p o ra && need p o ra) := by
+    wants p o ra = (o != .beforeErr && !aborted p o ra && !cannotRetry p o ra && need p o ra && !o.ctxDone) := by
   unfold wants cannotRetry
   have h : (decide (p.maxRetries < 0) || decide ((ra : Int) < p.maxRetries))
       = !(decide (p.maxRetries ≤ (ra : Int)) && decide (0 ≤ p.maxRetries)) := by
@@ -239,18 +242,24 @@ def block (p : Policy σ) (attempt : Nat) : List Call :=
   (p.hooks.reverse.map fun h => Call.hook h.1 attempt) ++ [.interval attempt]
 
 theorem wants_parts {p : Policy σ} {o : Outcome} {ra : Nat} (h : wants p o ra = true) :
-    o ≠ .beforeErr ∧ aborted p o ra = false ∧ cannotRetry p o ra = false ∧ need p o ra = true := by
+    o ≠ .beforeErr ∧ aborted p o ra = false ∧ cannotRetry p o ra = false ∧ need p o ra = true ∧
+      o.ctxDone = false := by
   rw [wants_eq] at h
   simp only [Bool.and_eq_true, bne_iff_ne, ne_eq, Bool.not_eq_true'] at h
-  exact ⟨h.1.1.1, h.1.1.2, h.1.2, h.2⟩
+  exact ⟨h.1.1.1.1, h.1.1.1.2, h.1.1.2, h.1.2, h.2⟩
+
+/-- The wait before the next attempt found the context done: hooks and the interval function
+have run, no further attempt follows. -/
+def interrupted (p : Policy σ) (o : Outcome) (ra : Nat) : Bool :=
+  o != .beforeErr && !aborted p o ra && !cannotRetry p o ra && need p o ra && o.ctxDone
 
 theorem iter_cont (p : Policy σ) (mw : Nat → σ → σ × W) (o : Outcome) (ra : Nat) (st : σ)
     (prev : Option Resp) (h : wants p o ra = true) :
     ∃ ev, iteration R p mw o ra st prev = (ev, .inr (nextState p mw o ra st, some (respOf o ra)))
       ∧ iterations ev = 1 ∧ wires ev = [(ra, (mw ra st).2)] ∧ calls ev = block p (ra + 1) := by
-  obtain ⟨ho, hab, hc, hn⟩ := wants_parts h
+  obtain ⟨ho, hab, hc, hn, hd⟩ := wants_parts h
   rw [iteration_repaired R rfl rfl p mw o ra st prev ho]
-  simp only [hab, hc, hn, Bool.false_eq_true, ↓reduceIte, Bool.not_true]
+  simp only [hab, hc, hn, hd, Bool.false_eq_true, ↓reduceIte, Bool.not_true]
   have hq1 := quiet_runAfter (W := W) R (obsOf o ra) ra p.after 0 (o.errKind.map (ra, ·))
   have hq2 := quiet_conds (W := W) p (obsOf o ra) o.errKind.isSome
   refine ⟨_, rfl, ?_, ?_, ?_⟩
@@ -265,51 +274,74 @@ theorem iter_cont (p : Policy σ) (mw : Nat → σ → σ × W) (o : Outcome) (r
 theorem iter_stop (p : Policy σ) (mw : Nat → σ → σ × W) (o : Outcome) (ra : Nat) (st : σ)
     (prev : Option Resp) (h : wants p o ra = false) :
     ∃ ev fin, iteration R p mw o ra st prev = (ev, .inl fin)
-      ∧ iterations ev = 1 ∧ calls ev = []
+      ∧ iterations ev = 1 ∧ calls ev = (if interrupted p o ra then block p (ra + 1) else [])
       ∧ wires ev = (if o = .beforeErr then [] else [(ra, (mw ra st).2)])
       ∧ (o = .beforeErr → fin = .done prev (some (ra, .before)))
-      ∧ (o ≠ .beforeErr → ∃ err, fin = .done (some (respOf o ra)) err ∧
-          (err = o.errKind.map (ra, ·) ∨ (aborted p o ra = true ∧ ∃ j, err = some (ra, .after j)))) := by
+      ∧ (o ≠ .beforeErr → interrupted p o ra = false → ∃ err, fin = .done (some (respOf o ra)) err ∧
+          (err = o.errKind.map (ra, ·) ∨ (aborted p o ra = true ∧ ∃ j, err = some (ra, .after j))))
+      ∧ (interrupted p o ra = true →
+          fin = .done (some { respOf o ra with err := some (ra, .waitCtx) }) (some (ra, .waitCtx))) := by
   by_cases ho : o = .beforeErr
   · subst ho
-    refine ⟨[.before ra], .done prev (some (ra, .before)), by simp [iteration], ?_, ?_, ?_, ?_, ?_⟩ <;>
-      simp [iterations, Event.isBefore, calls, wires]
+    have hi : interrupted p .beforeErr ra = false := by simp [interrupted]
+    refine ⟨[.before ra], .done prev (some (ra, .before)), by simp [iteration], ?_, ?_, ?_, ?_, ?_, ?_⟩ <;>
+      simp [iterations, Event.isBefore, calls, wires, hi]
   · rw [iteration_repaired R rfl rfl p mw o ra st prev ho]
     rw [wants_eq] at h
+    have hne : (o != Outcome.beforeErr) = true := by simpa using ho
     have hq1 := quiet_runAfter (W := W) R (obsOf o ra) ra p.after 0 (o.errKind.map (ra, ·))
     have hq2 := quiet_conds (W := W) p (obsOf o ra) o.errKind.isSome
     by_cases hab : aborted p o ra = true
-    · simp only [hab, ↓reduceIte]
-      refine ⟨_, _, rfl, ?_, ?_, ?_, ?_, ?_⟩
+    · have hi : interrupted p o ra = false := by simp [interrupted, hab]
+      simp only [hab, ↓reduceIte]
+      refine ⟨_, _, rfl, ?_, ?_, ?_, ?_, ?_, ?_⟩
       · simp only [iterations_append, hq1.iterations]; simp [iterations, Event.isBefore, List.countP_cons]
-      · simp only [calls_append, hq1.calls]; simp [calls]
+      · rw [hi]; simp only [calls_append, hq1.calls]; simp [calls]
       · simp only [wires_append, hq1.wires]; simp [wires, ho]
       · exact fun h => absurd h ho
-      · intro _
+      · intro _ _
         refine ⟨_, rfl, Or.inr ⟨trivial, ?_⟩⟩
         apply runAfter_err_abort
         simpa [aborted, obsOf] using hab
+      · intro h'; rw [hi] at h'; cases h'
     · have hab' : aborted p o ra = false := by simpa using hab
       simp only [hab', Bool.false_eq_true, ↓reduceIte]
       by_cases hc : cannotRetry p o ra = true
-      · simp only [hc, ↓reduceIte]
-        refine ⟨_, _, rfl, ?_, ?_, ?_, ?_, ?_⟩
+      · have hi : interrupted p o ra = false := by simp [interrupted, hc]
+        simp only [hc, ↓reduceIte]
+        refine ⟨_, _, rfl, ?_, ?_, ?_, ?_, ?_, ?_⟩
         · simp only [iterations_append, hq1.iterations]; simp [iterations, Event.isBefore, List.countP_cons]
-        · simp only [calls_append, hq1.calls]; simp [calls]
+        · rw [hi]; simp only [calls_append, hq1.calls]; simp [calls]
         · simp only [wires_append, hq1.wires]; simp [wires, ho]
         · exact fun h => absurd h ho
-        · exact fun _ => ⟨_, rfl, Or.inl rfl⟩
+        · exact fun _ _ => ⟨_, rfl, Or.inl rfl⟩
+        · intro h'; rw [hi] at h'; cases h'
       · have hc' : cannotRetry p o ra = false := by simpa using hc
-        have hn : need p o ra = false := by
-          simpa [ho, hab', hc'] using h
-        simp only [hc', hn, Bool.false_eq_true, ↓reduceIte, Bool.not_false]
-        refine ⟨_, _, rfl, ?_, ?_, ?_, ?_, ?_⟩
-        · simp only [iterations_append, hq1.iterations, hq2.iterations]
-          simp [iterations, Event.isBefore, List.countP_cons]
-        · simp only [calls_append, hq1.calls, hq2.calls]; simp [calls]
-        · simp only [wires_append, hq1.wires, hq2.wires]; simp [wires, ho]
-        · exact fun h => absurd h ho
-        · exact fun _ => ⟨_, rfl, Or.inl rfl⟩
+        by_cases hn : need p o ra = true
+        · have hd : o.ctxDone = true := by simpa [hne, hab', hc', hn] using h
+          have hi : interrupted p o ra = true := by simp [interrupted, hne, hab', hc', hn, hd]
+          simp only [hc', hn, hd, Bool.false_eq_true, ↓reduceIte, Bool.not_true]
+          refine ⟨_, _, rfl, ?_, ?_, ?_, ?_, ?_, ?_⟩
+          · simp only [iterations_append, hq1.iterations, hq2.iterations, hooks_iterations]
+            simp [iterations, Event.isBefore, List.countP_cons]
+          · rw [hi]
+            simp only [calls_append, hq1.calls, hq2.calls, hooks_calls]
+            simp [calls, block, obsOf]
+          · simp only [wires_append, hq1.wires, hq2.wires, hooks_wires]; simp [wires, ho]
+          · exact fun h => absurd h ho
+          · intro _ h'; rw [hi] at h'; cases h'
+          · intro _; rfl
+        · have hn' : need p o ra = false := by simpa using hn
+          have hi : interrupted p o ra = false := by simp [interrupted, hn']
+          simp only [hc', hn', Bool.false_eq_true, ↓reduceIte, Bool.not_false]
+          refine ⟨_, _, rfl, ?_, ?_, ?_, ?_, ?_, ?_⟩
+          · simp only [iterations_append, hq1.iterations, hq2.iterations]
+            simp [iterations, Event.isBefore, List.countP_cons]
+          · rw [hi]; simp only [calls_append, hq1.calls, hq2.calls]; simp [calls]
+          · simp only [wires_append, hq1.wires, hq2.wires]; simp [wires, ho]
+          · exact fun h => absurd h ho
+          · exact fun _ _ => ⟨_, rfl, Or.inl rfl⟩
+          · intro h'; rw [hi] at h'; cases h'
 
 theorem loop_cons_cont (p : Policy σ) (mw : Nat → σ → σ × W) (o : Outcome) (rest : List Outcome)
     (ra : Nat) (st : σ) (prev : Option Resp) (h : wants p o ra = true) :
